@@ -358,6 +358,7 @@ inductive Op
   | issue (r : ReqId) (k : KeyId) (mux : Bool)
   | poll (r : ReqId)
   | cancel (r : ReqId)
+  | cancelOff (r : ReqId)     -- a request that holds a connection is dropped on a thread that has no tokio runtime
   | dialDone (r : ReqId) (o : DialOutcome)
   | finish (r : ReqId)
   | connReady (c : ConnId)
@@ -485,6 +486,12 @@ def step (s : State) : Op → State × Obs
       match s.co r with
       | none => (s, .noop)
       | some c => if c.alive then (dropCheckout s r, .done) else (s, .noop)
+  -- `Pooled::drop` cannot spawn the hand-back task there (`tokio::spawn` panics and the task value is dropped while the
+  -- panic unwinds): the connection is lost and nothing goes back to the pool - the hand-back task is aborted at birth
+  | .cancelOff r =>
+    match s.held r with
+    | some p => (abortTask (dropPooled { s with held := upd s.held r none } p) s.nextTask, .done)
+    | none => (s, .noop)
   | .dialDone r o =>
     let d := s.dial r
     if d.started && d.outcome.isNone then
